@@ -108,6 +108,18 @@ class C20(Property):
                 spec = self._fanout_spec(rnd)
             spec["kind"] = kind
             return spec
+        if i % 15 == 2:
+            # gridded inputs: the same geometry, possibly in two different layouts; merger with or without a grid of its own
+            from .. import model_grid as mg
+
+            g = mg.random_structured_spec(rnd, dim=2, classes=("uniform", "rect"), lens=(2, 3, 4))
+            if rnd.random() < 0.5:
+                g["dims"] = [g["dims"][0], g["dims"][0]]  # square: data shapes stay equal under a transposing layout
+            lays = list(mg.layouts(2))
+            la, lb = rnd.choice(lays), rnd.choice(lays)
+            if rnd.random() < 0.3:
+                lb = la
+            return dict(kind="wsum_grid", a=dict(g, **la), b=dict(g, **lb), merger_grid=rnd.choice([None, None, "a", "b"]), end=rnd.choice([2, 4]))
         npairs = rnd.randint(1, 3)
         cstep = rnd.choice([1, 2, 3, 4, 6])
         pstep = rnd.choice([d for d in (1, 2, 3, 0.5) if (cstep / d) == int(cstep / d)])
@@ -390,8 +402,61 @@ class C20(Property):
         if spec.get("fanout_pull"):
             out.count("wsum_consumers_with_different_steps")
 
+    def _wsum_grid(self, out, spec):
+        """value and weight fields on two layouts of one geometry: the merged field is either refused at connect time or carries
+        sum(value*weight) at every physical location of the grid the consumer is told"""
+        from .. import model_grid as mg
+
+        ga, gb = mg.make_grid(spec["a"]), mg.make_grid(spec["b"])
+        fa, fb = mg.located(spec["a"]), 2.0 * mg.located(spec["b"])  # physical fields f and 2f
+        same_layout = ga == gb
+        gen = fm.components.CallbackGenerator(
+            callbacks={
+                "A": (lambda t: fa.copy(), fm.Info(time=None, grid=ga, units="m")),
+                "B": (lambda t: fb.copy(), fm.Info(time=None, grid=gb, units="m")),
+                "wA": (lambda t: np.full(ga.data_shape, 0.25), fm.Info(time=None, grid=ga, units="")),
+                "wB": (lambda t: np.full(gb.data_shape, 0.75), fm.Info(time=None, grid=gb, units="")),
+            },
+            start=T0, step=H(1))
+        mgrid = {None: None, "a": ga, "b": gb}[spec["merger_grid"]]
+        ws = fm.components.WeightedSum(inputs=["A", "B"], grid=mgrid)
+        cons = fm.components.DebugConsumer(inputs={"In": fm.Info(time=None, grid=None, units=None)}, start=T0, step=H(1))
+        comp = fm.Composition([gen, ws, cons], print_log=False, log_level=logging.CRITICAL + 10)
+        gen.outputs["A"] >> ws.inputs["A"]
+        gen.outputs["B"] >> ws.inputs["B"]
+        gen.outputs["wA"] >> ws.inputs["A_weight"]
+        gen.outputs["wB"] >> ws.inputs["B_weight"]
+        ws.outputs["WeightedSum"] >> cons.inputs["In"]
+        out.count("wsum_grid_compositions")
+        try:
+            comp.run(start_time=T0, end_time=T0 + H(spec["end"]))
+        except fm.FinamMetaDataError as e:
+            if same_layout or mgrid is not None:
+                out.viol("wsum_grid_refused", f"WeightedSum refused inputs on {'equal grids' if same_layout else 'compatible grids although it has a grid of its own'}: {e}", spec=spec)
+                return
+            out.count("wsum_grid_different_layouts_refused")
+            out.key = "wsum_grid:" + repr(sorted((k, repr(v)) for k, v in spec.items()))
+            return
+        except Exception as e:  # pylint: disable=broad-except
+            out.viol("wsum_run_failed", f"gridded WeightedSum composition raised {type(e).__name__}: {e}", spec=spec)
+            return
+        told = cons.inputs["In"].info.grid
+        got = np.asarray(np.ma.getdata(cons.data["In"].magnitude))[0]
+        exp = [1.75 * mg.located(sp) for sp, g in ((spec["a"], ga), (spec["b"], gb)) if told == g]
+        if not exp:
+            out.viol("wsum_grid_layout", "the consumer was told a grid that is neither of the two source layouts nor the merger's", spec=spec)
+            return
+        out.count("wsum_grid_fields_checked")
+        if not same_layout:
+            out.count("wsum_grid_different_layouts_delivered")
+        if got.shape != exp[0].shape or not np.allclose(got, exp[0], rtol=1e-12, atol=1e-9):
+            out.viol("wsum_grid_value", f"merged field is not sum(value*weight) at the locations of the grid the consumer was told: got {got.ravel()[:6].tolist()}, "
+                     f"expected {exp[0].ravel()[:6].tolist()}", spec=spec)
+            return
+        out.key = "wsum_grid:" + repr(sorted((k, repr(v)) for k, v in spec.items()))
+
     def coverage_gaps(self, counters, tier):
-        need = ["static_requests", "static_links_through_adapters", "static_republication_refused", "static_input_cases", "pull_compositions", "provider_requests_expected",
+        need = ["wsum_grid_fields_checked", "wsum_grid_different_layouts_delivered", "static_requests", "static_links_through_adapters", "static_republication_refused", "static_input_cases", "pull_compositions", "provider_requests_expected",
                 "provider_calls_checked", "chained_pull_components", "wsum_values_checked", "wsum_consumers_without_connect_time_pull", "wsum_static_weight_outputs_of_a_time_component", "wsum_two_consumers", "wsum_consumers_with_different_steps",
                 "static_with_memory_limit", "static_refused_early_publications", "static_refused_malformed_publications"]
         return [f"{k} never observed" for k in need if not counters.get(k)]
